@@ -30,7 +30,11 @@ def run_one(pid, m, tests):
         shutil.copytree(REPO, repo, ignore=shutil.ignore_patterns(".git"))
         os.makedirs(vdir)
         shutil.copy(os.path.join(VERIF, "known_findings.json"), vdir)
-        edits = m.get("edits") or [{"file": m["file"], "old": m["old"], "new": m["new"]}]
+        if m.get("patch"):
+            pr = subprocess.run(["patch", "-p1", "-s", "-i", m["patch"]], cwd=repo, capture_output=True, text=True)
+            if pr.returncode != 0:
+                return (m["name"], "SKIPPED", "patch does not apply: " + pr.stdout.strip()[:120])
+        edits = [] if m.get("patch") else (m.get("edits") or [{"file": m["file"], "old": m["old"], "new": m["new"]}])
         for e in edits:
             path = os.path.join(repo, e["file"])
             src = open(path).read()
@@ -98,6 +102,11 @@ def main():
             print(pid, "no mutants file")
             continue
         muts = json.load(open(path))
+        # independently produced seeded changes kept under /verif/seeded/<id>-<n>/ are part of the self-test
+        for sd in sorted(glob.glob(os.path.join(VERIF, "seeded", pid + "-*"))):
+            pf = os.path.join(sd, "patch.diff")
+            if os.path.exists(pf):
+                muts.append({"name": "seeded/" + os.path.basename(sd), "patch": pf, "expect": pid + "."})
         if only:
             muts = [m for m in muts if only in m["name"]]
         with ThreadPoolExecutor(max_workers=jobs) as ex:
